@@ -353,8 +353,8 @@ func visitInstr(fr *frame, instr ssa.Instruction) continuation {
 		*addr = zero(deref(instr.Type()))
 
 	case *ssa.MakeSlice:
-		c := asInt64(fr.i.w.concrete(fr.get(instr.Cap)))
-		l := asInt64(fr.i.w.concrete(fr.get(instr.Len)))
+		c := fr.i.w.allocSize(fr, fr.get(instr.Cap))
+		l := fr.i.w.allocSize(fr, fr.get(instr.Len))
 		if l < 0 || c < l {
 			panic(runtimeError("makeslice: len out of range"))
 		}
